@@ -505,6 +505,7 @@ def run_scenario(ops, opts=None):
 
     before = {}
     label = "start"
+    live_names = set()
     for step, op in enumerate([None] + list(ops)):
         new_names = set()
         if op is not None:
@@ -533,6 +534,7 @@ def run_scenario(ops, opts=None):
         cnodes, ok1 = sweep([cmod.Earth.node] + [f.center.node for _, f in w.frames], "center", fails, label, extra_names=("C20-absent",))
         onodes, ok2 = sweep([omod.ITRF] + [f.orientation for _, f in w.frames], "orient", fails, label, extra_names=("C20-absent",))
         counts["route_walks"] += len(cnodes) ** 2 + len(onodes) ** 2
+        live_names |= {u.name for u in cnodes} | {u.name for u in onodes}
         if not (ok1 and ok2):
             break   # never call the real path()/convert on a graph whose tables loop or break
         # 2. registry layer
@@ -564,6 +566,14 @@ def run_scenario(ops, opts=None):
                 y = x.copy(frame=b)
                 z = y.copy(frame=a)
             except Exception as e:  # noqa: BLE001
+                rc = {u.name for u in bounded_walk(a.center.node, b.center.name, len(cnodes) + 2)[1]} | {a.center.name, b.center.name}
+                ro = {u.name for u in bounded_walk(a.orientation, b.orientation.name, len(onodes) + 2)[1]} | {a.orientation.name, b.orientation.name}
+                if isinstance(e, RecursionError) and (rc & amb_c or ro & amb_o):
+                    # a frame re-registered under an EXISTING name whose own definition (the state vector of an orbit-attached frame)
+                    # is expressed in the older frame of that name: the newer '<name>_to_<parent>' shadows the older one and calls
+                    # itself.  Re-registration under an existing name is outside the property (NOT_COVERED: several live nodes of one name)
+                    counts["ambiguous_self_reference"] = counts.get("ambiguous_self_reference", 0) + 1
+                    continue
                 m = re.search(r"Unknown transformation (\S+) <-> (\S+)", str(e))
                 if m:
                     fam = "link-method-unresolvable:" + (w.site_of.get(m.group(2)) or w.site_of.get(m.group(1)) or "builtin")
@@ -600,7 +610,7 @@ def run_scenario(ops, opts=None):
         rec.close()
         for world in ("orient", "center"):
             tie[world] = rec.request_and_reply(world)
-    return {"fails": fails, "counts": counts, "tie": tie}
+    return {"fails": fails, "counts": counts, "tie": tie, "names": sorted(live_names)}
 
 
 # ---------------------------------------------------------------- forked execution under bounds
@@ -965,7 +975,12 @@ class _RegWorld:
         n = len(names)
         lag = {names[i] for i in range(n) if self.world == "orient" and classes[i] == 3}
 
+        strs = sc.get("strs")
+
         def nstr(k):
+            if strs is not None:
+                # names spelled by the scenario ('{t}' = the scenario tag): names containing '_to_' / ending with '_to'
+                return strs[k].replace("{t}", tag)
             # free-text names: four consecutive integers give names that differ by one non-word character only
             return f"{tag}N{('', '-', '.', '~')[k % 4]}{k // 4}" + ("Lagrange" if k in lag else "")
         objs = [None] * n
@@ -1160,7 +1175,7 @@ def forked(fn, *args, time_limit=120.0, mem_gb=3.0):
 
 # ---------------------------------------------------------------- generators of registry scenarios
 
-def random_reg_scenario(rng, world, site_labels, mro, tagno):
+def random_reg_scenario(rng, world, site_labels, mro, tagno, orient_classes=(0, 1, 1, 2, 3, 4, 5), center_classes=(0, 0, 1, 2)):
     """objects 0..n-1; object 0 is a plain base-class object; every other object is brought in by a registration site of
     the code or by raw operations, then extra raw operations (re-links, shadowing setattr, same-name objects)"""
     S = {lab: i for i, lab in enumerate(site_labels)}
@@ -1173,10 +1188,10 @@ def random_reg_scenario(rng, world, site_labels, mro, tagno):
         else:
             names.append(max(names, default=-1) + 1)
     if world == "orient":
-        classes = [0] + [rng.choice([0, 1, 1, 2, 3, 4, 5]) for _ in range(n - 1)]
+        classes = [0] + [rng.choice(list(orient_classes)) for _ in range(n - 1)]
         # a LagrangeOrient's name ends with 'Lagrange': every object sharing that name gets the suffix too (handled by nstr)
     else:
-        classes = [rng.choice([0, 0, 1, 2]) for _ in range(n)]
+        classes = [rng.choice(list(center_classes)) for _ in range(n)]
     ops = []
     order = list(range(1, n))
     rng.shuffle(order)
@@ -1244,3 +1259,95 @@ def random_reg_scenario(rng, world, site_labels, mro, tagno):
         else:
             ops += raw_registration(a, b)
     return {"world": world, "tag": f"T{tagno}", "names": names, "classes": classes, "mro": {int(k): v for k, v in mro.items()}, "ops": ops}
+
+
+# ---------------------------------------------------------------- string-keyed registry (Model/RegistryStr.lean, driver op `sreg`)
+
+NAME_POOLS = [
+    ["{t}E", "{t}S_to", "{t}S", "to_{t}E", "{t}X", "{t}Y", "{t}Z", "{t}W"],
+    ["{t}C", "{t}A_to_{t}B", "{t}A", "{t}B_to_{t}C", "{t}D", "{t}B", "{t}F", "{t}G"],
+    ["{t}E", "{t}S", "{t}S_to", "to_{t}E", "{t}E_to", "to_{t}S", "{t}_to_", "{t}_to"],
+    ["{t}Site 1", "{t}Site-1", "{t}É_tö", "{t}to", "{t}_", "{t}to_", "{t}a_to", "to_{t}a_to"],
+]
+
+
+def codepoints(s):
+    return ".".join(str(ord(c)) for c in s) if s else "-"
+
+
+def sreg_line(sc):
+    n = len(sc["names"])
+    mro = ";".join(f"{c}:" + ".".join(str(x) for x in l) for c, l in sorted(sc["mro"].items()))
+    strs = ";".join(codepoints(x.replace("{t}", sc["tag"])) for x in sc["strs"])
+    return (f"sreg {n} " + ",".join(map(str, sc["names"])) + " " + ",".join(map(str, sc["classes"])) + f" {mro} 0 {strs} " + " ".join(sc["ops"])).rstrip()
+
+
+def scenario_keys(sc, site_labels):
+    """(name id, name id) pairs under which the scenario stores a link method, for the collision statistics"""
+    pairs = set()
+    names = sc["names"]
+    for tok in sc["ops"]:
+        parts = tok.split(":")
+        if parts[0] == "A":
+            pairs.add((int(parts[2]), int(parts[3])))
+        elif parts[0] == "S":
+            pairs.add((names[int(parts[2])], names[int(parts[3])]))
+    return pairs
+
+
+def has_key_collision(sc, site_labels):
+    strs = [x.replace("{t}", sc["tag"]) for x in sc["strs"]]
+    seen = {}
+    for a, b in scenario_keys(sc, site_labels):
+        k = f"{strs[a]}_to_{strs[b]}"
+        if seen.setdefault(k, (a, b)) != (a, b):
+            return True
+        # the reverse lookup of another pair
+    keys = {f"{strs[a]}_to_{strs[b]}": (a, b) for a, b in scenario_keys(sc, site_labels)}
+    ids = sorted(set(sc["names"]))
+    for a in ids:
+        for b in ids:
+            k = f"{strs[a]}_to_{strs[b]}"
+            if k in keys and keys[k] != (a, b):
+                return True
+    return False
+
+
+def fixed_string_scenarios(site_labels, orient_mro, center_mro):
+    """the collision of the open finding C20-link-name-collision, realised on the real classes: 'S_to' below 'E' and 'S' below
+    'to_E' (both worlds), and 'A_to_B' below 'C' / 'A' below 'B_to_C'"""
+    S = {lab: i for i, lab in enumerate(site_labels)}
+    out = []
+    k = 0
+    for pool, order in ((NAME_POOLS[0], (0, 1, 3, 2)), (NAME_POOLS[0], (0, 3, 2, 1)), (NAME_POOLS[1], (0, 1, 3, 2)), (NAME_POOLS[1], (0, 3, 2, 1))):
+        # object i carries name id i: 0 = root, 1 = '<x>_to' style child of the root, 3 = the 'to_<root>' style object, 2 = the child of 3
+        for world in ("orient", "center"):
+            ops = []
+            for i in order[1:]:
+                p = 0 if i in (1, 3) else 3
+                if world == "orient":
+                    if i == 3:
+                        ops += [f"A:c0:3:0:3", f"L:0:3"]
+                    else:
+                        ops.append(f"S:{S['create_station[orient]']}:{i}:{p}:0")
+                else:
+                    ops.append(f"S:{S['Center.add_link']}:{i}:{p}:0")
+            out.append({"world": world, "tag": f"X{k}", "names": [0, 1, 2, 3], "classes": [0, 1, 1, 0] if world == "orient" else [0, 0, 0, 0],
+                        "mro": orient_mro if world == "orient" else center_mro, "ops": ops, "strs": pool[:4], "kind": "sreg-fixed-collision"})
+            k += 1
+    return out
+
+
+def random_string_scenario(rng, world, site_labels, mro, tagno):
+    sc = random_reg_scenario(rng, world, site_labels, mro, tagno, orient_classes=(0, 1, 1, 4, 5), center_classes=(0, 0, 2))
+    pool = list(rng.choice(NAME_POOLS))
+    if rng.random() < 0.5:
+        rng.shuffle(pool)
+    sc["strs"] = pool[:max(sc["names"]) + 1]
+    sc["tag"] = f"Y{tagno}"
+    # the drivers of the sites take the station frame name from the name string; every site used here accepts free text
+    S = {lab: i for i, lab in enumerate(site_labels)}
+    ok = {S[x] for x in ("TopocentricOrientation.__init__", "create_station[orient]", "Center.add_link")}
+    if any(t.startswith("S:") and int(t.split(":")[1]) not in ok for t in sc["ops"]):
+        raise RuntimeError("string scenario uses a site whose name is not free text")
+    return sc
